@@ -437,7 +437,56 @@ def r6_parameters_written_by_the_update_only(ctx):
         ctx.ok("C04.R6", step, None, f"{g.cfg.name}: parameter names collected", construct="parameter names", instance=g.cfg.name)
 
 
+def r7_responsibilities_agree(ctx):
+    """Mixture models: the update of `probs` is the mean of the cluster responsibilities of the individuals - the same responsibilities the
+    other update rules and the individual sampler weight with.  They are computed at several sites; the sites must agree (same softmax axis,
+    same floor on the log-likelihoods), otherwise `probs` is the maximiser for another posterior than the one the other parameters use."""
+    ctx.rule("C04.R7", "every computation of the cluster responsibilities has the same form (softmax axis, floor of the log-likelihoods)", 4)
+    sites = []
+    for f in ctx.ix.iter_funcs():
+        for c in ast.walk(f.node):
+            if not isinstance(c, ast.Call):
+                continue
+            arg = dim = None
+            fn = U(c.func)
+            if isinstance(c.func, ast.Call) and U(c.func.func) in ("torch.nn.Softmax", "nn.Softmax", "Softmax") and c.args:
+                arg, dim = c.args[0], kwarg(c.func, "dim") or (c.func.args[0] if c.func.args else None)
+            elif fn in ("torch.softmax", "torch.nn.functional.softmax", "F.softmax", "torch.log_softmax") and c.args:
+                arg, dim = c.args[0], kwarg(c, "dim") or (c.args[1] if len(c.args) > 1 else None)
+            elif isinstance(c.func, ast.Attribute) and c.func.attr == "softmax" and U(c.func.value) not in ("torch", "F", "torch.nn.functional"):
+                arg, dim = c.func.value, kwarg(c, "dim") or (c.args[0] if c.args else None)
+            if arg is None:
+                continue
+            floor = None
+            a = arg
+            if isinstance(a, ast.Call) and (U(a.func) in ("torch.clamp", "torch.clip") or (isinstance(a.func, ast.Attribute) and a.func.attr in ("clamp", "clip", "clamp_min"))):
+                lo = kwarg(a, "min")
+                if lo is None:
+                    pos = a.args[1:] if U(a.func) in ("torch.clamp", "torch.clip") else a.args
+                    lo = pos[0] if pos else None
+                try:
+                    floor = float(ast.literal_eval(lo)) if lo is not None else None
+                except (ValueError, SyntaxError):
+                    floor = U(lo)
+            sites.append((f, c, (U(dim) if dim is not None else None, floor)))
+    if len(sites) < 2:
+        raise AnalysisError("C04.R7", f"anchor vanished: {len(sites)} softmax site(s) found (6 confirmed by hand)")
+    from collections import Counter
+    forms = Counter(k for _, _, k in sites)
+    ref, n_ref = forms.most_common(1)[0]
+    CONFIRMED = ("1", -100.0)
+    for f, c, k in sites:
+        if k == ref:
+            ctx.ok("C04.R7", f, c, f"responsibilities = softmax(dim={k[0]}) of the log-likelihoods floored at {k[1]}")
+        else:
+            ctx.violation("C04.R7", f, c, f"`{U(c)[:70]}` computes the cluster responsibilities with (axis, floor) = {k}, the other {n_ref} sites with {ref}: the quantities averaged / weighted "
+                          "by this rule are not the responsibilities the other update rules and the sampler use")
+    if ref != CONFIRMED:
+        ctx.unknown("C04.R7", sites[0][0], sites[0][1], f"all sites agree on {ref}, which is not the confirmed form {CONFIRMED}", construct="common form of the responsibilities")
+
+
 def rules(ctx):
+    r7_responsibilities_agree(ctx)
     r1_two_phase(ctx)
     r2_tables(ctx)
     r2b_dispersion_formula(ctx)
